@@ -374,6 +374,76 @@ def run(ctx):
                 break
         shutil.rmtree(d, ignore_errors=True)
         res.coverage_extra["race_detector_runs"] = nraces
+        # a reader of stderr that falls behind: progress lines back up in a pipe with a line or two of room that nobody reads for
+        # three seconds while a phase lasts two (a git that is slow to print its first byte); whatever the schedule between the
+        # ticker and the scanner, the run ends and prints the report of the quiet run
+        import fcntl, time
+        fdir = S.fakegit_dir(ctx["bins"], eng.scratch)
+        ssc = S.gen_graph(random.Random(7), "small")
+        sorder = ssc.enum_gitlike([x for _, x in ssc.refs])
+        quiet = eng.run_fake(ssc, sorder, [], [], extra_args=["-v", "--no-progress"])
+        nslow = 0
+        for k in range(2 if quick else 24):
+            slow = ["rev-list", "cat-file-batch", "for-each-ref", "cat-file-batch-check"][k % 4]
+            scp = os.path.join(eng.scratch, "slow-%d.json" % k)
+            with open(scp, "w") as f:
+                json.dump(ssc.fakegit_json(sorder, extra={"delay_ms": {slow: 1500 + 150 * (k % 5)}}), f)
+            env = S.clean_env({"PATH": fdir + ":" + os.environ.get("PATH", ""), "FAKEGIT_SCENARIO": scp, "GOMAXPROCS": str([1, 2, 4, 16][(k // 4) % 4])})
+            rfd, wfd = os.pipe()
+            fcntl.fcntl(wfd, 1031, 4096)                 # F_SETPIPE_SZ: one page,
+            os.write(wfd, b"x" * 4040)                   # of which all but a line or two is taken: the next writes block
+            wd = os.path.join(eng.scratch, "wd")
+            os.makedirs(wd, exist_ok=True)
+            p = subprocess.Popen([ctx["bins"]["sizer"], "-v", "--progress"], cwd=wd, env=env, stdin=subprocess.DEVNULL, stdout=subprocess.PIPE, stderr=wfd)
+            os.close(wfd)
+            time.sleep(3.0)
+            os.set_blocking(rfd, False)
+            t_end, hung = time.time() + 25, False
+            while p.poll() is None:
+                try:
+                    os.read(rfd, 65536)
+                except BlockingIOError:
+                    time.sleep(0.05)
+                if time.time() > t_end:
+                    hung = True
+                    p.kill()
+                    break
+            out = p.stdout.read()
+            p.wait()
+            os.close(rfd)
+            nslow += 1
+            res.case(("slow-stderr-reader", k), True)
+            inp = {"scenario": "small generated repository; git %s sleeps before its first byte; stderr is a nearly full pipe nobody reads for 3 s" % slow,
+                   "GOMAXPROCS": env["GOMAXPROCS"], "args": ["-v", "--progress"]}
+            if hung:
+                res.violations.append(vlib.Violation("the run does not end when the reader of its progress output falls behind (hang)", inp,
+                                                     expected="exit 0 and the report", observed="still running 25 s after the reader caught up"))
+                break
+            if p.returncode != 0 or out != quiet[1]:
+                res.violations.append(vlib.Violation("a slow reader of the progress output changes the outcome", inp,
+                                                     expected=quiet[1][:300].decode("latin1"), observed={"rc": p.returncode, "stdout": out[:300].decode("latin1")}))
+        res.coverage_extra["slow_stderr_reader_runs"] = nslow
+        # the meter itself under many short phases whose end falls right after a tick (3000 phases of microseconds with a ticker
+        # of 20 / 50 microseconds, GOMAXPROCS 1, 2, 4): the worker always comes back, and every phase has its one final line
+        script = ",".join("S%d,I3,Y2,D" % (i % 8 + 1) for i in range(3000 if quick else 12000))
+        nstress = 0
+        for gmp, period in (("1", 20000), ("1", 50000), ("2", 20000), ("2", 50000), ("4", 20000), ("4", 50000)):
+            if True:
+                try:
+                    pr = subprocess.run([ctx["bins"]["api"]], input=("meter %d %s\n" % (period, script)).encode(), stdout=subprocess.PIPE, stderr=subprocess.PIPE,
+                                        timeout=40, env={"GOMAXPROCS": gmp, "PATH": os.environ.get("PATH", "/usr/bin:/bin")})
+                    raw = bytes.fromhex(pr.stdout.split()[0].decode()) if pr.stdout.split() and pr.stdout.split()[0] != b"-" else b""
+                    finals = raw.count(b"\n")
+                    verdict = None if pr.returncode == 0 and finals == script.count("D") else "rc=%s, %d final lines for %d phases" % (pr.returncode, finals, script.count("D"))
+                except subprocess.TimeoutExpired:
+                    verdict = "still running after 40 s (deadlock between Done and the ticker goroutine)"
+                nstress += 1
+                res.case(("meter-stress", gmp, period), True)
+                if verdict:
+                    res.violations.append(vlib.Violation("the progress meter does not survive phases that end right after a tick", {"GOMAXPROCS": gmp, "ticker_ns": period, "script": "%d x S,I3,Y2,D" % script.count("D")},
+                                                         expected="every phase ends with one final line", observed=verdict))
+                    break
+        res.coverage_extra["meter_stress_runs"] = nstress
     finally:
         eng.close()
     res.assumptions = ["goroutine schedules are sampled (GOMAXPROCS 1/2/16, race detector), not enumerated"]
